@@ -144,9 +144,25 @@ CLAIMED["C20"] = (
     "DESIGN.md section 5, C20",
 )
 
+CLAIMED["C10"] = (
+    "widgets-edit",
+    "exploration",
+    "Seeded histories on Edit (ASCII, accented, double-width and combining characters, newlines; widths 1-20; wrap space/any/clip; "
+    "align; multiline; allow_tab; mask) and on IntEdit/IntegerEdit/FloatEdit: printable characters, cursor keys, home/end, "
+    "backspace/delete, enter, tab, unknown keys, clicks at any cell, set_edit_text/set_edit_pos, with render (focus on/off) and "
+    "width changes as explicit steps because the view shift and the preferred column are state set by them. After every step: text "
+    "and offset equal a reference editor (display-row geometry from a fresh twin through urwid's layout), handled/unhandled result, "
+    "offset bounds, cursor drawn on the character at the offset, clicks land on the character displayed by the last render, change/"
+    "postchange signal order and arguments, numeric alphabets. Sampling, not proof.",
+    "Text layout is trusted for geometry (C03); str text only; double-width characters only at widths >= 2; two known findings "
+    "(stale view-shift flag at a click, zero-width-only rows in the layout) mask the histories that trigger them.",
+    "deterministic simulation: seeded input/render/resize interleavings against a reference editor model",
+    "DESIGN.md section 5, C10",
+)
+
 PENDING = {
     p: "claimed in DESIGN.md; its simulation engine is not built yet in this tree, so no check is registered for it at this commit"
-    for p in ("C07", "C08", "C10")
+    for p in ("C07", "C08")
 }
 
 
